@@ -639,8 +639,10 @@ def run_mgr(ctx, replay):
                     want = chk.expected_parent(bid, s["level"], s["slot_index"])
                     nbo = len(rss)
                     psig = dict(component="DifferentialEvolutionHyperbandBracketManager.trial_id_from_parent_slot",
+                                # fewer brackets per iteration than rung levels: offset-0 brackets have rungs whose
+                                # stored bracket delta is <= 0 (directly, or further down the chain of parents)
                                 defect="parent_rung_bracket_delta_not_positive"
-                                if (bid % nbo == 0 and s["rung_index"] >= nbo) else "parent_slot_wrong")
+                                if nbo < len(rss[0]) else "parent_slot_wrong")
                     try:
                         par = mgr.trial_id_from_parent_slot(bid, s["level"], s["slot_index"])
                         par = None if par is None else int(par)
